@@ -32,7 +32,7 @@ ASSUMPTIONS = [
 ]
 FLOORS = {'evaluate_outcomes': 2000, 'pairs_seen': 144,
           'reassigned_evaluations': 300, 'two_sheet_evaluations': 300,
-          'decimal_residue_cases': 100, 'postfix_percent_cases': 30,
+          'decimal_residue_cases': 100, 'postfix_percent_cases': 30, 'big_power_cases': 12,
           'rendering_groups': 500}
 ANCHOR_FUNCS = {
     'xlcalculator/parser.py': ['FormulaParser.shunting_yard',
@@ -50,7 +50,10 @@ LITS = [(0, '0'), (1, '1'), (2, '2'), (3, '3'), (4, '4'), (10, '10'),
         (50 / 100, '50%'), (25 / 100, '25%'), (200 / 100, '200%'),
         (150 / 100, '150%'),
         (1.5E+3, '1.5E+3'), (2.5E-1, '2.5E-1'), (1E+2, '1E+2'),
-        (5E-1, '5E-1')]
+        (5E-1, '5E-1'),
+        # scientific notation as typed: exponent without a sign, lower case
+        (1E3, '1E3'), (1.5E2, '1.5E2'), (4.0, '4E0'), (2E1, '2e1'),
+        (2.5E-1, '2.5e-1')]
 
 
 def shards(tier):
@@ -565,6 +568,41 @@ def run(ctx):
                              kf=self_attr(R, wb, ast, got),
                              monitor='value-vs-reference',
                              group='postfix-percent:' + text[:8])
+
+    # ---- whole-number powers beyond 2^63 (no silent wrap-around) ---------------
+    if sh in (4, 5) or thorough:
+        forms = ['=2^63', '=2^64', '=3^40', '=10^19/10^18', '=2^70/2^69',
+                 '=2^62*4', '=-2^63-1', '=7^30-7^30', '=(2^63=2^63+1)',
+                 '=10^20&""', '=A1^B1', '=A1^B1/A1^C1']
+        asg = (2, 70, 69, 1, 1, 1)
+        wb = ref.Workbook({('Sheet1', i + 1, 1): v for i, v in enumerate(asg)})
+        wants = [2.0 ** 63, 2.0 ** 64, float(3 ** 40), 10.0, 2.0, 2.0 ** 64,
+                 -2.0 ** 63 - 1, 0.0, None, None, 2.0 ** 70, 2.0]
+        outs = subject.eval_batch(forms, dict(zip(CELLS, asg)))
+        for text, want, got in zip(forms, wants, outs):
+            ctx.event('evaluate_outcomes')
+            ctx.event('big_power_cases')
+            ctx.case(('big-power', text))
+            if want is None:
+                ok = got[0] == 'value'
+                if text.startswith('=(2^63='):
+                    # 2^63 and 2^63+1 are different whole numbers, or the same
+                    # double: either answer is a boolean
+                    ok = got[0] == 'value' and got[1][0] == 'bool'
+                if text == '=10^20&""':
+                    ok = got in (('value', ('text', '100000000000000000000')),
+                                 ('value', ('text', '1e+20')),
+                                 ('value', ('text', '1E+20')))
+            else:
+                ok = got[0] == 'value' and got[1][0] == 'num' and \
+                    abs(got[1][1] - want) <= 1e-12 * max(1.0, abs(want))
+            if not ok:
+                ctx.fail(f'{text} with {dict(zip(CELLS, asg))}: observed '
+                         f'{got}, expected {want}',
+                         {'formula': text, 'cells': dict(zip(CELLS, asg)),
+                          'observed': got, 'reference': want},
+                         monitor='value-vs-reference',
+                         group='big-power:' + text[:6])
 
     # ---- sampled trees ------------------------------------------------------
     def leaves(r):
